@@ -373,6 +373,10 @@ func cmdCheck(args []string) int {
 		ok, out := runBounded(b)
 		boundedOut = append(boundedOut, map[string]any{"name": b.Name, "bound": b.Bound, "passed": ok})
 		if !ok {
+			if kf := findKnown(known, id, "bounded."+b.Name); kf != nil && kf.Status == "known" {
+				knownHit = append(knownHit, fmt.Sprintf("KNOWN-FINDING: property=%s bounded.%s: %s", id, b.Name, kf.What))
+				continue
+			}
 			nViol++
 			rp := writeReplay(id, &OblResult{Name: "bounded." + b.Name, Kind: "bounded", Status: "failed", output: out, Desc: "bounded stand-in failed (bound: " + b.Bound + ")"}, nil, cfg)
 			fmt.Printf("VIOLATION property=%s replay=%s obligation=bounded.%s\n", id, rp, b.Name)
